@@ -189,7 +189,8 @@ Proof. split; [vm_compute; reflexivity|]. split; [vm_compute; reflexivity|]. app
    guard msa_okb: as many ids and taxa as rows; at least one row; rows of one length >= 1; segments non-empty,
    blank-free, not ending in '.'; taxon names free of TAB/LF/CR and of blanks at the ends, not ending in '.';
    ids <> 0; LOCAL positions strictly increasing and inside the alignment; swaps (a, a+1, a+2) in increasing order,
-   non-overlapping, inside the alignment; a consensus, if there is one, has one segment per column, and its segments
+   non-overlapping, inside the alignment; a consensus, if there is one, is non-empty and not longer than the alignment
+   (msa2str raises on a longer one), and its segments
    are segments in the above sense without double quote, without '>' and without '-' inside a longer segment.
    The stamp lines are comment lines.  (Tag reader as repaired in b56b54e: quoted attribute values may hold blanks.) *)
 Theorem C13_msa_roundtrip : forall stamp m, msa_okb m = true -> Forall (fun l => starts 35 l = true) stamp ->
@@ -246,18 +247,14 @@ Example C13_msa_guard_inhabited :
         [51; 9; 82; 117; 46; 46; 46; 46; 46; 46; 9; 118; 9; 45; 9; 108; 9; 97; 9; 100]].
 Proof. split; [vm_compute; reflexivity|]. split; [repeat split; intros I; cbn in I; tauto || (repeat (destruct I as [I|I]; [discriminate I|]); exact I)|vm_compute; reflexivity]. Qed.
 
-(* the guards are needed.  msa2str pads the CONSENSUS line to the width of the alignment; a consensus with fewer
-   segments than columns (get_consensus(gaps=False) when a column is mostly gaps) comes back with '' appended *)
-Theorem C13_msa_consensus_padding_refuted : exists m r,
-  msa_okb (mk_msa (m_ids m) (m_taxa m) (m_alm m) (m_local m) (m_swaps m) None) = true
-  /\ m_cons m = Some [[104]; [97]]
-  /\ read_msa_section (msa_section c_cogid [(1, [], m)]) = Ok [(c_cogid, 1, r)]
-  /\ r_cons r = Some [[104]; [97]; []].
-Proof.
-  exists (mk_msa [2; 1] [[65]; [66]] [[[104]; [97]; [45]]; [[104]; [111]; [116]]] [] [] (Some [[104]; [97]])).
-  eexists. split; [vm_compute; reflexivity|]. split; [reflexivity|]. split; vm_compute; reflexivity.
-Qed.
-Print Assumptions C13_msa_consensus_padding_refuted.
+(* a consensus with fewer segments than columns (get_consensus(gaps=False)): msa2str pads the CONSENSUS line to the
+   width of the alignment, _list2msa drops the padding again (fix 1c54340; before it the value came back as h a '') *)
+Example C13_msa_short_consensus_roundtrip :
+  let m := mk_msa [2; 1] [[65]; [66]] [[[104]; [97]; [45]]; [[104]; [111]; [116]]] [] [] (Some [[104]; [97]]) in
+  msa_okb m = true
+  /\ read_msa_section (msa_section c_cogid [(1, [], m)]) = Ok [(c_cogid, 1, expected_read m)]
+  /\ r_cons (expected_read m) = Some [[104]; [97]].
+Proof. repeat split; vm_compute; reflexivity. Qed.
 
 (* a taxon name ending in '.' comes back without the dots (rstrip('.') on the dot-padded name) *)
 Theorem C13_msa_taxon_dot_refuted : exists m r,
@@ -269,9 +266,9 @@ Qed.
 Print Assumptions C13_msa_taxon_dot_refuted.
 
 (* ---- aligned wordlists written WITHOUT the blocks: the state add_alignments rebuilds from the columns ----
-   guard no_crossb: no cognate set has, inside one doculect, words for two different concepts *)
+   (the words of one doculect in id order, fix 246780d: no condition on the cognate sets is needed) *)
 Theorem C13_alignments_state_roundtrip : forall tbl w ref taxa cogids,
-  wl_okb tbl w = true -> no_crossb (wl_cols w) ref (wl_rows w) = true ->
+  wl_okb tbl w = true ->
   alignments_state (wl_cols w) ref taxa cogids (sorted_rows w)
   = alignments_state (wl_cols w) ref taxa cogids (wl_rows w).
 Proof. exact alignments_state_roundtrip. Qed.
@@ -279,21 +276,21 @@ Print Assumptions C13_alignments_state_roundtrip.
 
 Definition ex_cross : wl :=
   mk_wl [s_doculect; s_concept; c_tokens; c_cogid]
-        [ (5, [VStr [69]; VStr [104; 97; 110; 100]; VList [[104]; [97]]; VInt 2]);
-          (9, [VStr [69]; VStr [97; 114; 109]; VList [[104]; [111]]; VInt 2]) ].
-(* the guard is needed: one doculect, one cognate set, two concepts - the rows of the set come back in another order *)
-Theorem C13_alignments_state_cross_concept_refuted :
+        [ (9, [VStr [69]; VStr [104; 97; 110; 100]; VList [[104]; [97]]; VInt 2]);
+          (5, [VStr [69]; VStr [97; 114; 109]; VList [[104]; [111]]; VInt 2]) ].
+(* one doculect, one cognate set, two concepts: the file holds the rows in the order 5 (arm), 9 (hand), the object
+   9, 5 - the rebuilt cognate set lists the words 5, 9 either way (before 246780d: 9, 5 against 5, 9) *)
+Example C13_alignments_state_cross_concept :
   wl_okb namespace_rc ex_cross = true
+  /\ map fst (sorted_rows ex_cross) = [5; 9] /\ map fst (wl_rows ex_cross) = [9; 5]
   /\ map (fun e => r_ids (snd e)) (alignments_state (wl_cols ex_cross) c_cogid [[69]] [2] (wl_rows ex_cross)) = [[5; 9]]
-  /\ map (fun e => r_ids (snd e)) (alignments_state (wl_cols ex_cross) c_cogid [[69]] [2] (sorted_rows ex_cross)) = [[9; 5]].
+  /\ map (fun e => r_ids (snd e)) (alignments_state (wl_cols ex_cross) c_cogid [[69]] [2] (sorted_rows ex_cross)) = [[5; 9]].
 Proof. repeat split; vm_compute; reflexivity. Qed.
-Print Assumptions C13_alignments_state_cross_concept_refuted.
 
 Example C13_alignments_state_inhabited :
-  no_crossb (wl_cols ex_wl) c_cogid (wl_rows ex_wl) = true
-  /\ map (fun e => (fst e, r_ids (snd e))) (alignments_state (wl_cols ex_wl) c_cogid [[69; 110; 103]; [71; 101; 114]] [1; 2] (wl_rows ex_wl))
+  map (fun e => (fst e, r_ids (snd e))) (alignments_state (wl_cols ex_wl) c_cogid [[69; 110; 103]; [71; 101; 114]] [1; 2] (wl_rows ex_wl))
      = [(1, [1; 3])].
-Proof. split; vm_compute; reflexivity. Qed.
+Proof. vm_compute; reflexivity. Qed.
 
 (* ---- the checkers that run on the implementation's output ---- *)
 Theorem C13_checker_sound : forall w loaded, same_objectb w loaded = true ->
